@@ -965,6 +965,11 @@ def _with_rows(case, obs):
     if case["schema"] != "untyped":
         return False
     st = obs.get("statics") or {}
+    if not case.get("rows") and (obs.get("res") or [None])[0] == "err" and obs.get("execs"):
+        # the engine rejected the executed statement (e.g. a malformed field name gives 'WHERE  = ') and
+        # the table is empty: Model.v's evaluator looks at the WHERE clause only per row, so with no row
+        # it cannot see the rejection; only the statement text and the bound values are compared
+        return False
     return all(v is not None for v in st.values())
 
 
